@@ -148,32 +148,45 @@ func (e *Enc) onClose(ci ssa.CallInstruction, c *ssa.CallCommon, ch Term) {
 // ---------------------------------------------------------------------------
 // rounded-real model
 
+// rnd models one IEEE-754 binary64 operation: the correctly rounded value of the exact result x.
+// Each distinct exact term gets its own constant r constrained by the rounding facts (congruence
+// for syntactically equal terms only: a sound over-approximation that avoids an uninterpreted
+// function over mixed integer/real terms, which stalls the solvers).
 func (e *Enc) rnd(x Term) Term {
-	e.sc.DeclareFun("rnd", []string{SReal}, SReal)
-	r := App(SReal, "rnd", x)
-	if !e.rndSeen[x.S] {
-		e.rndSeen[x.S] = true
-		e.rndTerms = append(e.rndTerms, x)
-		eps := "(/ 1.0 9007199254740992.0)" // 2^-53
-		tiny := "(/ 1.0 1e300)"
-		_ = tiny
-		// 1. relative error (plus denormal slack 2^-1075, rendered as a tiny rational)
-		e.sc.Assert(T(fmt.Sprintf("(<= (rabs (- %s %s)) (+ (* %s (rabs %s)) %s))", r.S, x.S, eps, x.S, denormSlack), SBool))
-		// 3. exactness on integers below 2^53
-		e.sc.Assert(T(fmt.Sprintf("(=> (and (is_int %s) (<= (rabs %s) 9007199254740992.0)) (= %s %s))", x.S, x.S, r.S, x.S), SBool))
-		// idempotence
-		e.sc.Assert(T(fmt.Sprintf("(= (rnd %s) %s)", r.S, r.S), SBool))
-		// sign preservation and zero
-		e.sc.Assert(T(fmt.Sprintf("(and (=> (>= %s 0.0) (>= %s 0.0)) (=> (<= %s 0.0) (<= %s 0.0)))", x.S, r.S, x.S, r.S), SBool))
-		// 2. monotonicity against earlier rnd terms
-		for _, y := range e.rndTerms[:len(e.rndTerms)-1] {
-			e.sc.Assert(T(fmt.Sprintf("(and (=> (<= %s %s) (<= (rnd %s) (rnd %s))) (=> (<= %s %s) (<= (rnd %s) (rnd %s))))", x.S, y.S, x.S, y.S, y.S, x.S, y.S, x.S), SBool))
+	if r, ok := e.rndConst[x.S]; ok {
+		return r
+	}
+	if !e.rndInit {
+		e.rndInit = true
+		// fp_tiny over-approximates the absolute rounding error in the subnormal range (2^-1075)
+		e.sc.Declare("fp_tiny", SReal)
+		e.sc.Assert(T("(and (> fp_tiny 0.0) (<= fp_tiny (/ 1.0 1000000000000000000000000000000.0)))", SBool))
+		e.assumed["float64 arithmetic in the rounded-real model: every operation returns a value r with |r-x| <= 2^-53|x| + tiny of its exact result x, exact when x is an integer up to 2^53, sign-preserving; no NaN/Inf (FP.finite obligations); monotonicity instances only where a contract asks for them"] = true
+	}
+	e.freshCounter++
+	r := e.sc.Declare(fmt.Sprintf("rnd!%d", e.freshCounter), SReal)
+	e.rndConst[x.S] = r
+	e.rndTerms = append(e.rndTerms, x)
+	e.rndVals = append(e.rndVals, r)
+	eps := "(/ 1.0 9007199254740992.0)" // 2^-53
+	key := r.S + " "
+	// 1. relative error
+	e.sc.AssertKeyed(key, T(fmt.Sprintf("(<= (rabs (- %s %s)) (+ (* %s (rabs %s)) fp_tiny))", r.S, x.S, eps, x.S), SBool))
+	// 3. exactness on integers up to 2^53 (sums, differences, conversions)
+	if !strings.HasPrefix(x.S, "(* ") && !strings.HasPrefix(x.S, "(/ ") {
+		e.sc.AssertKeyed(key, T(fmt.Sprintf("(=> (and (= %s (to_real (to_int %s))) (<= (rabs %s) 9007199254740992.0)) (= %s %s))", x.S, x.S, x.S, r.S, x.S), SBool))
+	}
+	// sign preservation and zero
+	e.sc.AssertKeyed(key, T(fmt.Sprintf("(and (=> (>= %s 0.0) (>= %s 0.0)) (=> (<= %s 0.0) (<= %s 0.0)))", x.S, r.S, x.S, r.S), SBool))
+	// 2. monotonicity against earlier roundings (opt-in: quadratic)
+	if e.fc != nil && e.fc.FPMonotone {
+		for k, y := range e.rndTerms[:len(e.rndTerms)-1] {
+			ry := e.rndVals[k]
+			e.sc.AssertKeyed(key, T(fmt.Sprintf("(and (=> (<= %s %s) (<= %s %s)) (=> (<= %s %s) (<= %s %s)))", x.S, y.S, r.S, ry.S, y.S, x.S, ry.S, r.S), SBool))
 		}
 	}
 	return r
 }
-
-const denormSlack = "(/ 1.0 1000000000000000000000000000000000000000000000000000000000000000000000000000000000000000000000000000000000000000000000000000000000000000000000000000000000000000000000000000000000000000000000000000000000000000000000000000000000000000000000000000000000000000000000000000000000000000000000000000000000000000000000.0)"
 
 // ---------------------------------------------------------------------------
 // externals
@@ -381,10 +394,17 @@ func (e *Enc) callExternal(ci ssa.CallInstruction, c *ssa.CallCommon, name strin
 			App(SInt, "to_int", App(SReal, "+", x, T("0.5", SReal))),
 			App(SInt, "-", App(SInt, "to_int", App(SReal, "+", App(SReal, "-", x), T("0.5", SReal)))))
 		return []Term{ToReal(r)}, nil
-	case "math.Max":
-		return []Term{App(SReal, "rmax", args[0], args[1])}, nil
-	case "math.Min":
-		return []Term{App(SReal, "rmin", args[0], args[1])}, nil
+	case "math.Max", "math.Min":
+		fn := "max"
+		if name == "math.Min" {
+			fn = "min"
+		}
+		if wa, ok := intWitness(args[0]); ok {
+			if wb, ok := intWitness(args[1]); ok {
+				return []Term{App(SReal, "to_real", App(SInt, "i"+fn, wa, wb))}, nil
+			}
+		}
+		return []Term{App(SReal, "r"+fn, args[0], args[1])}, nil
 	case "math.Abs":
 		return []Term{App(SReal, "rabs", args[0])}, nil
 	case "math.Cos":
